@@ -1,6 +1,7 @@
 package mon
 
 import (
+	"bytes"
 	"encoding/json"
 	"fmt"
 	"sync"
@@ -160,9 +161,17 @@ func c03Trigger(f *rm.Forest, in *Inst, cl claim, bad int) string {
 }
 
 type c03Verifier struct {
-	site string
-	in   *Inst
-	call func(cl claim) error
+	site  string // API call (first part of the violation key)
+	entry string // site plus "(remember)" for the remembering variants: counters, scenarios, replay
+	in    *Inst
+	call  func(cl claim) error
+}
+
+func (v c03Verifier) name() string {
+	if v.entry != "" {
+		return v.entry
+	}
+	return v.site
 }
 
 // c03Judge calls one verifier and judges an acceptance.
@@ -201,7 +210,7 @@ func c03Judge(c *core.Ctx, f *rm.Forest, v c03Verifier, cl claim, setScn func())
 		}
 	}
 	c.ViolateContinue(v.site, "accepted-false-claim", trig, fmt.Sprintf("%s accepted a false claim on a forest of %d leaves (roots %s): targets=%v hashes=%s proof=%s: %s",
-		v.site, f.N, hashesStr(f.Roots), cl.Targets, hashesStr(cl.Hashes), hashesStr(cl.Proof), what))
+		v.name(), f.N, hashesStr(f.Roots), cl.Targets, hashesStr(cl.Hashes), hashesStr(cl.Proof), what))
 	return true
 }
 
@@ -327,7 +336,7 @@ func c03Alpha(c *core.Ctx) {
 		for _, v := range vs {
 			judged++
 			if c03Judge(c, f, v, cl, func() {
-				c.SetScenario(c03Scenario{History: hist, Entry: v.site, Claim: cl.JSON()})
+				c.SetScenario(c03Scenario{History: hist, Entry: v.name(), Claim: cl.JSON()})
 			}) {
 				accepted++
 				c.Distinct(core.FP(ac.N, int(ac.Mask), cl.Targets, len(cl.Proof), hashClass(f, cl)))
@@ -410,6 +419,31 @@ func c03Verifiers(w *World) []c03Verifier {
 			vs = append(vs, partialVerifier(in))
 		}
 	}
+	// The same two map-forest entry points asked to REMEMBER what they verify (added after seeded
+	// change C03g: a shortcut taken only with remember=true).  They run on a throw-away copy of
+	// the forest, restored once per state from its own bytes, so that whatever an accepted claim
+	// makes them store stays out of the history; soundness is judged exactly as for the others
+	// (the copy has the same roots, and a claim is true or false of the roots).
+	for _, in := range w.Insts {
+		if in.MP == nil {
+			continue
+		}
+		var buf bytes.Buffer
+		if _, err := in.MP.Write(&buf); err != nil {
+			continue
+		}
+		m2 := u.NewMapPollard(in.MP.Full)
+		if _, err := m2.Read(&buf); err != nil {
+			continue
+		}
+		cp := &Inst{Cfg: in.Cfg, Name: in.Name + "(copy)", MP: &m2, U: &m2, Rem: map[Hash]bool{}}
+		vs = append(vs, c03Verifier{site: cp.Cfg.Kind + ".Verify", entry: cp.Cfg.Kind + ".Verify(remember)", in: cp, call: func(cl claim) error {
+			return cp.MP.Verify(cloneHashes(cl.Hashes), mkProof(cl), true)
+		}})
+		vs = append(vs, c03Verifier{site: cp.Cfg.Kind + ".VerifyPartialProof", entry: cp.Cfg.Kind + ".VerifyPartialProof(remember)", in: cp, call: func(cl claim) error {
+			return cp.MP.VerifyPartialProof(cloneU64(cl.Targets), cloneHashes(cl.Hashes), cloneHashes(cl.Proof), true)
+		}})
+	}
 	return vs
 }
 
@@ -489,19 +523,19 @@ func c03StateX(c *core.Ctx, w *World, f *rm.Forest, tag uint64, per int, stale [
 				cfg = &cc
 			}
 			set := func(cl claim) func() {
-				return func() { c.SetScenario(mkScn(cfg, v.site, cl)) }
+				return func() { c.SetScenario(mkScn(cfg, v.name(), cl)) }
 			}
 			acc := c03Judge(c, f, v, cl, set(cl))
 			if acc {
-				c.Count("accepted:"+v.site, 1)
+				c.Count("accepted:"+v.name(), 1)
 			} else {
-				c.Count("rejected:"+v.site, 1)
+				c.Count("rejected:"+v.name(), 1)
 				if truth && len(cl.Targets) > 0 {
-					c.Count("rejected_although_all_pairs_true:"+v.site, 1) // e.g. damaged proof; allowed
+					c.Count("rejected_although_all_pairs_true:"+v.name(), 1) // e.g. damaged proof; allowed
 				}
 			}
 			// partial proofs completed with the true hashes at the missing positions
-			if v.in != nil && v.in.MP != nil && v.site == v.in.Cfg.Kind+".VerifyPartialProof" && len(cl.Targets) > 0 {
+			if v.in != nil && v.in.MP != nil && v.site == v.in.Cfg.Kind+".VerifyPartialProof" && v.entry == "" && len(cl.Targets) > 0 {
 				miss := v.in.MP.GetMissingPositions(cloneU64(cl.Targets))
 				c2 := cl.clone()
 				c2.Proof = nil
@@ -514,9 +548,9 @@ func c03StateX(c *core.Ctx, w *World, f *rm.Forest, tag uint64, per int, stale [
 				}
 				c2.Kind += "+missing-completed"
 				if c03Judge(c, f, v, c2, set(c2)) {
-					c.Count("accepted:"+v.site+"(completed)", 1)
+					c.Count("accepted:"+v.name()+"(completed)", 1)
 				} else {
-					c.Count("rejected:"+v.site+"(completed)", 1)
+					c.Count("rejected:"+v.name()+"(completed)", 1)
 				}
 			}
 		}
@@ -564,7 +598,7 @@ func c03UndoRun(c *core.Ctx, s fScenario, onlyOp int, only *c03Scenario, per int
 			}
 			cl := only.Claim.Claim()
 			for _, v := range c03Verifiers(st.W) {
-				if only.Entry != "" && v.site != only.Entry {
+				if only.Entry != "" && v.name() != only.Entry {
 					continue
 				}
 				c03Judge(c, f, v, cl, func() {})
@@ -612,12 +646,12 @@ func c03Replay(c *core.Ctx, raw json.RawMessage) {
 	f := w.M.Forest()
 	cl := s.Claim.Claim()
 	for _, v := range c03Verifiers(w) {
-		if s.Entry != "" && v.site != s.Entry {
+		if s.Entry != "" && v.name() != s.Entry {
 			continue
 		}
 		acc := c03Judge(c, f, v, cl, func() {})
 		if c.Verbose {
-			fmt.Printf("  %s (%v): accepted=%v\n", v.site, v.in != nil, acc)
+			fmt.Printf("  %s (%v): accepted=%v\n", v.name(), v.in != nil, acc)
 		}
 	}
 }
